@@ -97,6 +97,8 @@ contract(
     callees={'time.time': returns('now')},
     requires=['now >= 0', 'self.last_sent <= int(now)'],
     lets={'K': 'self.keepalive', 'due': 'self.keepalive > 0 and int(now) >= self.last_sent + self.keepalive'},
+    result=bool_(),
+    modifies=['self.last_sent', 'self.last_print'],
     ensures=[
         'result == due',
         'implies(K == 0, result == False)',  # hold time zero: no periodic keepalive
@@ -130,4 +132,38 @@ contract(
     ensures=['result == int(self) // 3', 'implies(int(self) == 0, result == 0)', 'implies(int(self) >= 3, 1 <= result and 3 * result <= int(self))'],
     canaries=[('self.KEEPALIVE_DIVISOR', '2')],
     notes=['`/` is encoded over the reals (float rounding not modelled); complemented by exhaustive native evaluation of all 65536 hold times (bounded_c12)'],
+)
+
+
+def _new_keepalive(it, args, kwargs, fr, node):
+    import z3
+    from pyvc.interp import Raise
+
+    fr.locs['sent'] = simp(fr.lookup('sent') + 1) if 'sent' in fr.locs else 1
+    f = fr
+    while f is not None and 'sent' not in f.locs:
+        f = f.parent
+    nd = it.ctx.fresh('send!fails', z3.BoolSort())
+    if it.ctx.branch(nd):
+        raise Raise(VExc(REG.resolve_exc('NetworkError'), ('send failed',)))
+    return None
+
+
+contract(
+    'reactor/keepalive.py',
+    'KA.send_if_needed',
+    props=('C12',),
+    params={'self': obj('exabgp.reactor.keepalive:KA', send_timer=obj('exabgp.bgp.timer:SendTimer', keepalive=int_(0, 21845), last_print=int_(0), last_sent=int_(0)), _proto=obj(None))},
+    ghost={'now': real_(), 'sent': const(0)},
+    callees={'time.time': returns('now'), 'self._proto.new_keepalive': _new_keepalive},
+    requires=['now >= 0', 'self.send_timer.last_sent <= int(now)'],
+    lets={'K': 'self.send_timer.keepalive', 'due': 'self.send_timer.keepalive > 0 and int(now) >= self.send_timer.last_sent + self.send_timer.keepalive'},
+    raises=[{'exc': 'Notify', 'args': '(4, 0)', 'when': 'due and sent == 1'}],
+    ensures=[
+        # a KEEPALIVE is written exactly when one is due; with hold time zero (K == 0) never
+        'result == due',
+        'sent == (1 if due else 0)',
+        'implies(K == 0, sent == 0)',
+    ],
+    canaries=[('if not self.send_timer.need_ka():', 'if self.send_timer.need_ka():')],
 )
